@@ -42,6 +42,8 @@ import PyhamModel.Lemmas.OmaLemmas
 import PyhamModel.Lemmas.Listing
 import PyhamModel.Lemmas.Corollaries
 import PyhamModel.Lemmas.SameHierarchy
+import PyhamModel.Lemmas.CheckerSound
+import PyhamModel.Lemmas.LineageCount
 namespace Pyham.Props
 open Pyham
 
@@ -128,6 +130,11 @@ theorem C03_load_realises (env : Env) (fams : List (Taxon × SL))
 
 /-! ## C02 — the hierarchy is a forest aligned level-by-level with the species tree -/
 
+/-- the executable checker the driver evaluates on every explored case (echo `real`) is sound for the relation
+    `Realises`: an echo `real=1` certifies that the model's load of that case realises its history -/
+theorem C03_checker_sound (q : Taxon) (l : SL) (n : Node) (hk : (n.nodes.map Node.key).Nodup)
+    (h : realisesB q l n = true) : Realises q l n := realisesB_sound q l n hk h
+
 /-- whatever realises a well-formed history is well-formed: children exactly one level below their
     parent all the way down, paralog discipline, genes at leaves and non-empty HOGs at internal nodes,
     every duplication event attached at its level with at least two flagged children at one child taxon,
@@ -151,6 +158,18 @@ theorem C02_wf_of_realises (T : STree) (q : Taxon) (l : SL) (n : Node) (hw : wfh
 theorem C04_registration_exact (env : Env) (flt : HogFilter) (es : List Elem) (tops : List Node) (ps : PS)
     (h : topElems env flt es [] {} = .ok (tops, ps)) : ps.reg.Perm (regOfL tops) :=
   Pyham.C04_registration_exact env flt es tops ps h
+
+/-- one HOG per lineage: a hierarchy that realises a history has, at every taxon, as many HOGs as lineages of
+    the history cross that taxon -/
+theorem C04_one_hog_per_lineage (t q : Taxon) (l : SL) (n : Node) (h : Realises q l n) :
+    (n.hogs.filter fun x => x.tx == t).length = lineagesAt t q l := realises_lineage_count t q l n h
+
+/-- **ancestral gene counts equal lineages at a taxon**: for every consistent dataset the ancestral genome at an
+    internal taxon lists exactly as many HOGs as family lineages cross it -/
+theorem C04_counts_are_lineages (D : Dataset) (hc : D.Consistent) :
+    ∃ H, load D.T D.nm D.file = .ok H ∧
+      ∀ t, D.T.isInternalAt t = true → H.genomeSize t = (D.fams.map fun f => lineagesAt t f.1 f.2).sum :=
+  Pyham.C04_counts_are_lineages D hc
 
 /-! ## C05 — a vertical comparison partitions both genomes -/
 
